@@ -463,6 +463,9 @@ func (x *Exec) visit(fr *frame, instr ssa.Instruction) cont {
 	case *ssa.Lookup:
 		fr.env[in] = x.lookup(fr, in)
 	case *ssa.MapUpdate:
+		if x.spec > 0 {
+			panic(specAbort{"map update inside a speculated block"})
+		}
 		m := x.get(fr, in.Map).(*MapV)
 		if m == nil {
 			x.rtPanic("assignment to entry in nil map")
@@ -502,9 +505,13 @@ func (x *Exec) concreteLen(t *smt.Term, typ types.Type, elem types.Type, what st
 	_ = w
 	if !t.IsConst() {
 		// A symbolic allocation size: every feasible value up to the split
-		// bound is explored; one representative beyond it is checked against
-		// the allocation limit.
-		maxSplit := x.Opt.MaxUnwind
+		// bound is explored; beyond it one representative (the largest range
+		// the solver finds feasible) is executed and checked against the
+		// allocation limit.
+		maxSplit := x.Opt.MaxSplit
+		if maxSplit <= 0 {
+			maxSplit = x.Opt.MaxUnwind
+		}
 		if maxSplit <= 0 {
 			maxSplit = 8
 		}
@@ -513,26 +520,38 @@ func (x *Exec) concreteLen(t *smt.Term, typ types.Type, elem types.Type, what st
 			big = x.C.And(x.C.SLe(x.C.BVC(t.Sort.W, 0), t), big)
 		}
 		if x.Branch(big) {
-			// large count
-			if x.query() != smt.Sat {
+			var m smt.Model
+			for _, th := range []uint64{1 << 28, 1 << 20, 1 << 12, uint64(maxSplit) + 1} {
+				c := x.C.ULe(x.C.BVC(t.Sort.W, th), t)
+				if x.query(c) == smt.Sat {
+					x.pc = append(x.pc, c)
+					m = x.fullModel()
+					x.pc = x.pc[:len(x.pc)-1]
+					break
+				}
+			}
+			if m == nil {
 				panic(pathEnd{"infeasible"})
 			}
-			m := x.fullModel()
 			v := x.C.Eval(t, m)
 			es := x.sizeof(elem)
+			x.note("symbolic counts above the split bound are explored through one representative value")
 			if x.Opt.AllocLimit != nil {
 				lim := x.Opt.AllocLimit(x.inputLen)
-				if int64(v)*es+x.allocB > lim {
+				if int64(v)*es+x.allocB > lim || int64(v) < 0 {
+					x.assume(x.C.Eq(t, x.C.BVC(t.Sort.W, v)))
 					f := &Finding{Kind: "alloc", Label: "alloc-bound", Harness: x.harness, Model: m, Tape: x.tape(m), Path: append([]int{}, x.sc.trace...),
 						Msg: fmt.Sprintf("%s of %d elements x %d bytes requested for a %d-byte input (limit %d)", what, v, es, x.inputLen, lim)}
 					x.findings = append(x.findings, f)
 					panic(pathEnd{"alloc-bound"})
 				}
 			}
-			x.unwindFailure(fmt.Sprintf("%s: symbolic size beyond split bound %d", what, maxSplit))
+			x.assume(x.C.Eq(t, x.C.BVC(t.Sort.W, v)))
+			t = x.C.BVC(t.Sort.W, v)
+		} else {
+			v := x.Concretize(t, maxSplit+1, what)
+			t = x.C.BVC(t.Sort.W, v)
 		}
-		v := x.Concretize(t, maxSplit+1, what)
-		t = x.C.BVC(t.Sort.W, v)
 	}
 	var n int64
 	if signed {
